@@ -30,7 +30,12 @@ def dt(name: str) -> ir.DataType:
     return ir.DataType[name]
 
 
+STRING_ITEM = 3  # every generated string is 3 bytes long
+
+
 def nbytes_of(dtype: str, n: int) -> int:
+    if dtype == "STRING":
+        return n * STRING_ITEM
     bw = dt(dtype).bitwidth
     return math.ceil(n * bw / 8)
 
@@ -40,6 +45,9 @@ def make_payload(seed: int, dtype: str, n: int) -> bytes:
     nb = nbytes_of(dtype, n)
     rng = random.Random(seed)
     b = bytearray(rng.getrandbits(8) for _ in range(nb))
+    if dtype == "STRING":
+        # printable bytes only: numpy's fixed-width bytes type strips trailing NULs when the strings are read back
+        b = bytearray(33 + (x % 94) for x in b)
     if dtype == "BOOL":
         b = bytearray(x & 1 for x in b)
     bw = SUBBYTE.get(dtype)
@@ -308,6 +316,9 @@ def build_tensor(spec: dict, idx: int, run_seed: int, acct: Accounting, ext_file
         t = SimTensor(acct, payload, dtype, shape, name, sim_index=idx, pieces=spec.get("pieces", 1), fail=spec.get("fail"))
     elif kind == "bare":
         t = BareSimTensor(SimTensor(acct, payload, dtype, shape, name, sim_index=idx, fail=spec.get("fail")))
+    elif kind == "string":
+        items = [payload[STRING_ITEM * i : STRING_ITEM * (i + 1)] for i in range(n)]
+        t = ir.StringTensor(np.array(items, dtype=object).reshape(shape), name=name)
     elif kind == "np":
         t = _np_tensor(payload, dtype, shape, name)
     elif kind == "proto":
@@ -367,3 +378,11 @@ def flush_ext_files(ext_files: dict) -> None:
         with open(path, "wb") as f:
             f.write(bytes(buf))
         info["bytes"] = bytes(buf)
+        cut = info.get("cut", 0)
+        if cut and len(buf) > 0:
+            # the data file is shorter than the model says: the last tensor(s) reach past its end
+            new_len = max(0, len(buf) - cut)
+            os.truncate(path, new_len)
+            info["bytes"] = bytes(buf[:new_len])
+            info["short"] = any(len(payload) > 0 and off + len(payload) > new_len for off, payload in info["chunks"])
+            info["short_sizes"] = [len(payload) for off, payload in info["chunks"] if len(payload) > 0 and off + len(payload) > new_len]
